@@ -21,7 +21,7 @@ def run(prog, rep, tier):
     apply(rep, "I2", "`?root` holds exactly for unit DIEs (any root tag) and the parent table returns the stored parent, per file, in any query order (cache.cc interpreted against an abstract libdw)", r_dw.i2(prog), 2)
     import r_order
     apply(rep, "I1d", "a DIE with partial import history equals itself with full history", r_order.i1d(prog), 1)
-    apply(rep, "I1b", "the parent takes context and import chain from the climbing cursor", r_dw.i1b(prog), 1)
+    apply(rep, "I1b", "the parent takes context and import chain from the climbing cursor", r_dw.i1b(prog), 2)
     apply(rep, "M2", "`unit` on a Dwarf lists each unit exactly once, in order, with its own Dwarf_CU and offset", r_dw.m2(prog, tier), 1)
     import r_order
     apply(rep, "O7", "units compare equal exactly when they are the same unit (`unit` of a DIE is the unit that lists it, also across a file and its alt file)", r_order.o7(prog), 2)
